@@ -60,6 +60,16 @@ MEMBERS = {
     "bad_both": {"jsonrpc": "2.0", "id": 3, "result": {}, "error": {"code": 1, "message": "m"}},
     "bad_nested": [{"jsonrpc": "2.0", "id": 9, "method": "ping"}],
 }
+def _deep(n):
+    d = {"leaf": 1}
+    for _ in range(n):
+        d = {"n": d}
+    return d
+
+
+# invalid members that are also hard to print: deeply nested junk (the library logs the offending member)
+MEMBERS["bad_deep300"] = {"foo": _deep(300)}
+MEMBERS["bad_deep900"] = {"foo": _deep(900)}
 VALID = [k for k in MEMBERS if not k.startswith("bad")]
 INVALID = [k for k in MEMBERS if k.startswith("bad")]
 
